@@ -173,6 +173,10 @@ Json::Value gen() {
   sc["devs"]["8:0"] = "ssd";
   int nticks = R(plugin == "kill_by_pg_scan" || plugin == "kill_by_io_cost" || exactHit ? 2 : 1, 4);
   int64_t hitUsage = (R64(1, int64_t(1) << 28)) << 12;
+  // a sibling whose memory.stat carries no pgscan line on the tick before the
+  // kill: it has no previous sample then, whatever it showed two ticks ago
+  std::string gapSib = (plugin == "kill_by_pg_scan" && nticks >= 3 && P(40)) ? oneOf(sib) : std::string();
+  int64_t gapSaved = 0;
   World view = w;
   Json::Value ticks(Json::arrayValue);
   Json::Value scripts(Json::objectValue);
@@ -183,7 +187,8 @@ Json::Value gen() {
     if (t > 0) {
       for (auto& p : sib) {
         bool last = t == nticks - 1;
-        if (!(exactHit && last) && !P(70)) continue;
+        bool gapNow = p == gapSib && (t == nticks - 2 || last);
+        if (!(exactHit && last) && !gapNow && !P(70)) continue;
         Cg* c = view.find(p);
         int how = W({40, 30, 30});
         if (exactHit && last) how = 3;
@@ -203,6 +208,16 @@ Json::Value gen() {
         }
         for (auto& kv : c->stat)
           if (kv.first == "pgscan" && P(70)) kv.second += P(20) ? 0 : R64(0, 1000000);
+        if (gapNow && !last) {
+          for (size_t i = 0; i < c->stat.size(); i++)
+            if (c->stat[i].first == "pgscan") {
+              gapSaved = c->stat[i].second;
+              c->stat.erase(c->stat.begin() + i);
+              break;
+            }
+        } else if (gapNow) {
+          c->stat.push_back({"pgscan", gapSaved + R64(500000, 5000000)});
+        }
         if (!c->io_stat.empty() && P(70)) {
           c->io_stat[0].rbytes += R64(0, int64_t(1) << 30);
           c->io_stat[0].wios += R64(0, 100000);
@@ -216,7 +231,8 @@ Json::Value gen() {
     }
     tick["ops"] = ops;
     ticks.append(tick);
-    bool fire = t == nticks - 1 || (plugin == "kill_by_pg_scan" && t == nticks - 2);
+    // kill_by_pg_scan samples only on ticks on which it runs
+    bool fire = t == nticks - 1 || (plugin == "kill_by_pg_scan" && t == nticks - 2) || (!gapSib.empty() && t == nticks - 3);
     scripts["detectors"]["d0"].append(fire ? "C" : "S");
   }
   sc["ticks"] = ticks;
@@ -259,6 +275,7 @@ Verdict run(const Json::Value& sc) {
   for (auto& c : w0.cgs)
     if (c.path.compare(0, 2, "p/") == 0) sib.push_back(c.path);
   int killTick = nticks - 1;
+  bool gapSeen = false;
   for (int t = 0; t <= killTick; t++) {
     const World& w = R.worlds[t];
     for (auto& p : sib) {
@@ -278,8 +295,11 @@ Verdict run(const Json::Value& sc) {
       }
       tm.cur_io = cost;
       if (t == killTick && killTick > 0) {
-        tm.have_prev_pgscan = true;
-        tm.prev_pgscan = R.worlds[t - 1].find(p)->statv("pgscan", 0);
+        // the previous tick's sample, if that tick's memory.stat had one
+        int64_t pv = R.worlds[t - 1].find(p)->statv("pgscan", -1);
+        tm.have_prev_pgscan = pv >= 0;
+        tm.prev_pgscan = pv;
+        if (pv < 0) gapSeen = true;
       }
     }
   }
@@ -292,7 +312,8 @@ Verdict run(const Json::Value& sc) {
   std::vector<std::string> eligible;
   for (auto& p : sib) {
     if (keys[p].uncertain) uncertain = true;
-    if (keys[p].eligible) eligible.push_back(p);
+    // an earlier firing tick of this scenario may have emptied a sibling: unpopulated cgroups are skipped (C03)
+    if (keys[p].eligible && w.populated(p)) eligible.push_back(p);
   }
   auto acc = acceptableFirst(keys, eligible);
   // observed: the first attempt of the invocation at the kill tick
@@ -344,6 +365,7 @@ Verdict run(const Json::Value& sc) {
   }
   if (sib.size() >= 3 && acc.size() < eligible.size()) v.nontrivial = true;
   v.labels.push_back(in.spec.name);
+  if (gapSeen) v.labels.push_back("pgscan_sample_gap");
   return v;
 }
 
